@@ -5,7 +5,7 @@ from .lib import ev
 PROP = 'C13'
 LEVEL = 'exploration'
 BUDGET = {'quick': 30, 'thorough': 400}
-FLOOR = {'quick': 3000, 'thorough': 40000}
+FLOOR = {'quick': 2000, 'thorough': 40000}
 RULE = ('random programs of 3-8 map statements (literal, map.set, map.remove with 1-3 keys, map.merge of two earlier maps) over '
         'maps of at most 8 entries.  Keys are drawn from key classes: sets of expression texts that are `==` by construction '
         '(1in|96px|2.54cm, "a"|a|unquote("a"), red|#f00|rgb(255,0,0), 7|7.0|(3 + 4), (1 2)|join(1, 2), ...), classes are pairwise '
